@@ -399,7 +399,9 @@ snowflake_dialect.add(
                 f"'{compression}'"
                 for compression in snowflake_dialect.sets("compression_types")
             ],
-            KeywordSegment,
+            # NOTE: Not a keyword: this form is a quoted string literal,
+            # which the capitalisation rules must leave alone.
+            CodeSegment,
             type="compression_type",
         ),
     ),
@@ -416,7 +418,9 @@ snowflake_dialect.add(
                     "warehouse_scaling_policies"
                 )
             ],
-            KeywordSegment,
+            # NOTE: Not a keyword: this form is a quoted string literal,
+            # which the capitalisation rules must leave alone.
+            CodeSegment,
             type="scaling_policy",
         ),
     ),
